@@ -43,9 +43,10 @@ def build(tier: str) -> CheckSpec:
     cubes = []
     if tier == "quick":
         cubes += qcommon.with_restore(qcommon.bmc_cubes(h_bmc, "bmc", 3, FULL, 1, 200, PROPS), [1, 2])
+        cubes += qcommon.with_restore(qcommon.bmc_cubes(h_bmc, "readd", 4, (ADD, KILL, READD, PULL), 2, 200, PROPS), [4])
         cubes += qcommon.with_restore(qcommon.nf_cubes(h_nf, "nf1", 1, 2, FULL, 240, PROPS), [0])
         cubes += qcommon.with_restore(qcommon.nf_cubes(h_nf, "nf2", 2, 1, FULL, 200, PROPS), [0])
-        b = {"bmc": "3 operations + restart at positions 1..2", "normal-form prefix": "1 staged job, restart, 2 ops; 2 staged jobs, restart, 1 op"}
+        b = {"bmc": "3 operations + restart at positions 1..2", "readd": "4 operations over add/kill/re-add/pull, then restart", "normal-form prefix": "1 staged job, restart, 2 ops; 2 staged jobs, restart, 1 op"}
     else:
         cubes += qcommon.with_restore(qcommon.bmc_cubes(h_bmc, "bmc", 4, FULL, 2, 2400, PROPS), [1, 2, 3, 4])
         cubes += qcommon.with_restore(qcommon.nf_cubes(h_nf, "nf2", 2, 2, FULL, 2400, PROPS), [0, 1])
